@@ -174,8 +174,15 @@ def authModel : Option Bytes → String
 def dedupDir (d : Model.Wal.Dir) : Model.Wal.Dir :=
   d.foldl (fun acc e => if acc.any (·.1 == e.1) then acc else acc ++ [e]) []
 
+/-- observable of the wal op: how many of the directory's segment files ParseWALFile accepts (`none` = its "too small"
+error).  Every file is run through the model's parser, so a fault of the model shows; the record count is left to the
+handler's wrapper-vs-parser comparison (it depends on the revision of the record parser, not on the wrappers). -/
 def walModel (dir : Model.Wal.Dir) : String :=
-  same (fun s => s!"{s.segmentCount}/{s.recordCount}") (Model.Wal.scanWALDirectory (dedupDir dir))
+  let d := dedupDir dir
+  let rs := (Model.Wal.walFiles d).map fun n => Model.Wal.parseWALFile (Model.Wal.readFile d n)
+  match rs.find? (fun r => match r with | .error _ => true | .ok _ => false) with
+  | some (.error e) => faultStr e
+  | _ => s!"same:{(rs.filter fun r => match r with | .ok (some _) => true | _ => false).length}"
 
 def toastModel (file : Bytes) : String := same (fun cs => toString cs.length) (Model.Toast.readTOASTTable file)
 
@@ -327,7 +334,7 @@ def filewrapGen (seed idx size : Nat) : Case :=
                            else pure (Driver.Fam.malformedSeq seed (j + r.filenode)))
             seqFiles := seqFiles ++ [(Model.basePath oid r.filenode, page)]
       damageFiles (seqFiles ++ Spec.filesOf c)).run' g
-    mk "dir" (dirModel c.pgVersion files) ([toString c.pgVersion, b2s (j % 8 == 0)] ++ files.map Driver.Fam.showFile)
+    mk "dir" (dirModel c.pgVersion files) ([toString c.pgVersion, b2s (j % 16 == 0)] ++ files.map Driver.Fam.showFile)
 
 def filewrap : Family := { name := "filewrap", gen := filewrapGen, eval := filewrapEval }
 
